@@ -25,7 +25,7 @@ MANIFEST = {
 
 REQUIRED = ["KV.C01.constants_ok", "KV.C01.table_represents", "KV.C01.fullScore_prob", "KV.C01.fullScore_prob_table",
             "KV.C01.stateFor_null", "KV.C01.stateFor_begin", "KV.C01.stateFor_step", "KV.C01.scoreSeq_spec",
-            "KV.C01.forgot_prob"]
+            "KV.C01.forgot_prob", "KV.C01.length_longest", "KV.C01.indep_left_iff", "KV.C01.quant_exact"]
 
 
 def case_fails(hexe, dexe, workdir, want):
